@@ -73,6 +73,62 @@ def roundtrip(inp):
     return {'violates': bool(bad), 'detail': bad[:4]}
 
 
+def file_view_equals_simple(inp):
+    """a hand-built process tensor with COMPLEX transforms (rank-3 and rank-4 MPO tensors), exported and imported as file-backed and as
+    in-memory object: the transformed MPO tensors, the caps and the dynamics computed from either import equal those of the original"""
+    import oqupy
+    from oqupy.process_tensor import SimpleProcessTensor, import_process_tensor
+    rng = np.random.default_rng(9)
+
+    def c(*shape):
+        return rng.normal(size=shape) + 1j * rng.normal(size=shape)
+    bad = []
+    d = tempfile.mkdtemp(prefix='c16_')
+    try:
+        for k, (with_in, with_out) in enumerate(((True, True), (True, False), (False, True))):
+            tin = c(4, 4) if with_in else None
+            tout = c(4, 4) if with_out else None
+            pt = SimpleProcessTensor(2, dt=0.1, transform_in=tin, transform_out=tout, name='nm', description='ds')
+            pt.set_mpo_tensor(0, c(1, 2, 4))
+            pt.set_mpo_tensor(1, c(2, 3, 4, 4))
+            pt.set_mpo_tensor(2, c(3, 1, 4))
+            pt.compute_caps()
+            fn = os.path.join(d, 'v%d.h5' % k)
+            pt.export(fn)
+            rho0 = np.array([[0.7, 0.1 - 0.2j], [0.1 + 0.2j, 0.3]])
+            sysm = oqupy.System(0.3 * oqupy.operators.sigma('x'))
+            ref = oqupy.compute_dynamics(sysm, initial_state=rho0, process_tensor=pt, progress_type='silent').states
+            for kind in ('file', 'simple'):
+                q = import_process_tensor(fn, kind)
+                what = []
+                for s_ in range(3):
+                    if not _same(q.get_mpo_tensor(s_), pt.get_mpo_tensor(s_)):
+                        what.append('transformed mpo tensor %d' % s_)
+                    def as_map(t):
+                        # a rank-3 tensor stands for the rank-4 one with a delta between input and output leg (documented)
+                        t = np.array(t)
+                        if t.ndim == 3:
+                            e = np.zeros(t.shape + (t.shape[2],), dtype=t.dtype)
+                            for x in range(t.shape[2]):
+                                e[:, :, x, x] = t[:, :, x]
+                            return e
+                        return t
+                    if not _same(as_map(q.get_mpo_tensor(s_, transformed=False)), as_map(pt.get_mpo_tensor(s_, transformed=False))):
+                        what.append('raw mpo tensor %d' % s_)
+                got = oqupy.compute_dynamics(sysm, initial_state=rho0, process_tensor=q, progress_type='silent').states
+                if np.abs(np.array(got) - np.array(ref)).max() > 1e-10:
+                    what.append('dynamics')
+                if kind == 'file':
+                    q.close()
+                if what:
+                    bad.append({'transform_in': with_in, 'transform_out': with_out, 'import_type': kind, 'differs': what[:4]})
+    finally:
+        for f in os.listdir(d):
+            os.remove(os.path.join(d, f))
+        os.rmdir(d)
+    return {'violates': bool(bad), 'detail': bad[:4]}
+
+
 def rename_then_import(inp):
     """name / description assigned AFTER a file-backed process tensor was created must come back from an import"""
     import oqupy
@@ -105,4 +161,4 @@ def rename_then_import(inp):
 
 
 # thorough tier (bounded native sweeps): (function, inputs, obligation of the open finding it reproduces or None)
-THOROUGH = [('roundtrip', {}, None), ('rename_then_import', {}, None)]
+THOROUGH = [('roundtrip', {}, None), ('rename_then_import', {}, None), ('file_view_equals_simple', {}, None)]
